@@ -346,7 +346,7 @@ theorem ite_blockTxs (c : Bool) (b : NodeLedger.State) (x : NodeLedger.State × 
 theorem processBlock_blockTxs (b : NodeLedger.State) (h : Header) : (b.processBlock h).1.blockTxs = b.blockTxs := by
   unfold NodeLedger.State.processBlock
   simp only
-  exact ite_blockTxs _ b _ (settle_blockTxs _ _ _)
+  exact settle_blockTxs _ _ _
 
 theorem authVerification_blockTxs (b : NodeLedger.State) (o src tgt : Nat) (sg : Bool) :
     (b.authVerification o src tgt sg).1.blockTxs = b.blockTxs := by
